@@ -775,18 +775,8 @@ class Walker:
             a, fa = self.elem_of(coll[1], node, pc)
             b, fb = self.elem_of(coll[2], node, pc)
             return ('tuple', a, b), And(fa, fb)
-        if h == 'filter':
-            e, f = self.elem_of(coll[1], node, pc)
-            cv, cc = self.apply_closure(coll[2], [e], And(pc, f))
-            return e, And(f, as_formula(cv))
-        if h == 'map':
-            e, f = self.elem_of(coll[1], node, pc)
-            mv, mc = self.apply_closure(coll[2], [e], And(pc, f))
-            return mv, f
-        if h == 'filter_map':
-            e, f = self.elem_of(coll[1], node, pc)
-            mv, mc = self.apply_closure(coll[2], [e], And(pc, f))
-            return payload(mv), And(f, is_variant(mv, 'Some'))
+        if h == 'mapped':
+            return coll[2], coll[3]
         if h == 'chunks':
             return ('chunk_of', coll[1]), T
         if h == 'chunk_of':
@@ -944,7 +934,17 @@ class Walker:
         if name in ('iter', 'iter_mut', 'into_iter') and _is_map_type(recv_ty):
             return ('hashmap', recv)
         if name in ('filter', 'map', 'filter_map') and len(args) == 2 and cl[1] and not _is_opt(recv_ty):
-            return (name, recv, cl[1])
+            # lazy adaptors: the closure body is walked once, now (its events belong to the pipeline),
+            # and the resulting element value / facts are cached in the term
+            e, facts = self.elem_of(recv, n['args'][0], pc)
+            self.loops.append(('for', n.get('hid'), recv, n))
+            cv, _ = self.apply_closure(cl[1], [e], And(pc, facts))
+            self.loops.pop()
+            if name == 'filter':
+                return ('mapped', recv, e, And(facts, as_formula(cv)))
+            if name == 'map':
+                return ('mapped', recv, cv, facts)
+            return ('mapped', recv, payload(cv), And(facts, is_variant(cv, 'Some')))
         if name in ('for_each', 'try_for_each') and len(args) == 2 and cl[1]:
             e, facts = self.elem_of(recv, n['args'][0], pc)
             self.loops.append(('for', n.get('hid'), recv, n))
